@@ -113,9 +113,14 @@ def obs_dec(settle, inner, ret, ret_err):
     return '(ObsDEC %s %s %s)' % (nlist(settle), C.coq_list([nlist(i) for i in inner]), r)
 
 def check_seq(pid, data, res):
-    terms = []
+    terms = []; windows = []; timeouts = []
     for c in data:
         res.evaluations += 1
+        if c['kind'] == 'window':
+            res.count('glue: NewMapExpiringKeyRepository window validation')
+            windows.append(c)
+            res.nontrivial.add(('window', c['window_ns'] >= 1000000))
+            continue
         if c['kind'] in ('defaults-mw', 'defaults-dec', 'nil-publisher'):
             res.count('glue: ' + c['kind'])
             if c['ret'] != c['detail']:
@@ -126,6 +131,8 @@ def check_seq(pid, data, res):
         if not (c['deadline_lo'] and c['deadline_hi'] and c['ctx_seen']) or c.get('detail'):
             res.mismatches.append(dict(kind='C14 glue: repository context (deadline = now + max(Timeout, 5 ms), derived from the message context) / topic',
                                        case=dict(timeout_ns=c['timeout_ns'], deadline_lo=c['deadline_lo'], deadline_hi=c['deadline_hi'], ctx_seen=c['ctx_seen'], detail=c.get('detail'))))
+        if c.get('repo_calls', 0) != 0:
+            timeouts.append(c)
         ans = {0: 'RNew', 1: 'RDup'}
         msgs = C.coq_list(['(%s, %s, %s)' % (N(m['id']), item_term(m['key'], m['err']),
                                            '(RFail %s)' % N(m['aerr']) if m['ans'] == 2 else ans[m['ans']]) for m in c['msgs']])
@@ -144,6 +151,20 @@ def check_seq(pid, data, res):
             sig = 'C14/decorator-outcome' if c['kind'] == 'dec' else 'C14/middleware-outcome'
             res.violations.append(dict(signature=sig, what='with scripted hasher/repository the %s does not do what the property says (duplicates dropped as successes without invoking, everything else passed through unchanged, errors returned)' % ('publisher decorator' if c['kind'] == 'dec' else 'middleware'),
                                        case={k: c[k] for k in ('kind', 'msgs', 'repo_keys', 'handler', 'ret', 'ret_err', 'settle', 'inner')}))
+    if timeouts or windows:
+        r = C.coq_eval(pid, 'glue', HEADER + 'Definition tcs : list timeout_case := %s.\nDefinition wcs : list (Z * bool) := %s.\n' % (
+                C.coq_list(['(TC %s %s %s %s)' % (Z(c['timeout_ns']), C.coq_bool(c['has_deadline'] and c['repo_calls'] > 0), Z(c['dl_lo_ns']), Z(c['dl_hi_ns'])) for c in timeouts]),
+                C.coq_list(['(%s, %s)' % (Z(c['window_ns']), C.coq_bool(c['window_err'])) for c in windows])),
+            [('R_t', 'timeout_mismatches tcs'), ('R_w', 'window_mismatches wcs')])
+        for i in r['R_t']:
+            c = timeouts[i]
+            res.mismatches.append(dict(kind='Corr.C14.timeout_mismatch (Glue.eff_timeout vs the deadline the repository was given)',
+                                       case={k: c[k] for k in ('kind', 'timeout_ns', 'repo_calls', 'has_deadline', 'dl_lo_ns', 'dl_hi_ns')}))
+        for i in r['R_w']:
+            c = windows[i]
+            res.mismatches.append(dict(kind='Corr.C14.window_mismatch (Glue.window_ok vs NewMapExpiringKeyRepository)',
+                                       case=dict(window_ns=c['window_ns'], returned_error=c['window_err'])))
+        res.extra['glue_model'] = dict(timeout_cases=len(timeouts), window_cases=len(windows))
     if terms:
         c = terms[0][0]
         res.sample(dict(kind='glue', call=c['kind'], msgs=c['msgs'], repo_keys=c['repo_keys'], ret=c['ret'], settle=c['settle'], inner=c['inner']))
